@@ -271,6 +271,50 @@ def lookalike_job(arg):
     return rep
 
 
+def dash_m_job(arg):
+    """The pipeline lives in the program module itself, started as a script and with `python -m package.module` (the package
+    is not accepted; `__main__` always is): keep, edit of a helper, revert - the printed results are those of plain execution."""
+    import json
+    import subprocess
+    import sys
+
+    idx = arg
+    rep = core.Report("C14")
+    rep.evaluations = 1
+    pkg = "appm%d" % idx
+    case = {"dash_m": True, "idx": idx}
+
+    def src(c, store):
+        return ("import json\nimport dds\n\n\ndef helper():\n    return %d\n\n\ndef compute():\n    return ('compute', helper() + 1)\n\n\nif __name__ == '__main__':\n"
+                "    dds.set_store('local', internal_dir=%r, data_dir=%r)\n    print('RESULT ' + json.dumps(dds.keep('/c14/m', compute)))\n" % (c, os.path.join(store, "i"), os.path.join(store, "d")))
+
+    with core.Scratch("vp_c14m_") as td:
+        root = os.path.join(td, "code")
+        os.makedirs(os.path.join(root, pkg))
+        open(os.path.join(root, pkg, "__init__.py"), "w").write("# pkg\n")
+        env = dict(os.environ, PYTHONPATH=os.pathsep.join([core.repo_dir(), root]), PYTHONDONTWRITEBYTECODE="1")
+        for how in ("script", "-m"):
+            store = os.path.join(td, "store_" + how.strip("-"))
+            for c in (1, 10, 1):
+                with open(os.path.join(root, pkg, "run.py"), "w") as f:
+                    f.write(src(c, store))
+                cmd = [sys.executable, os.path.join(root, pkg, "run.py")] if how == "script" else [sys.executable, "-m", pkg + ".run"]
+                try:
+                    r = subprocess.run(cmd, env=env, cwd=root, capture_output=True, text=True, timeout=300)
+                except subprocess.TimeoutExpired:
+                    rep.inconclusive.append("program started with %s timed out" % how)
+                    return rep
+                rep.count("program_module_runs")
+                lines = [l for l in r.stdout.splitlines() if l.startswith("RESULT ")]
+                got = json.loads(lines[-1][7:]) if lines else None
+                if got != ["compute", c + 1]:
+                    rep.violate("pipeline in the program module started with %s (helper constant %d): got %r (exit %d, %s), plain execution gives %r" % (how, c, got, r.returncode, r.stderr.strip().splitlines()[-1][:160] if r.stderr.strip() else "", ["compute", c + 1]),
+                                case, mechanism="program-module-started-with-dash-m")
+                    return rep
+    rep.nontriv(("c14dashm", idx))
+    return rep
+
+
 def shadow_local_job(arg):
     """A variable of an accepted nested module read through its module (settings.LIMIT, pkg.conf.settings.LIMIT) by a
     function that also has a local variable spelled like the last or an inner name of that chain (LIMIT = settings.LIMIT;
@@ -546,9 +590,11 @@ def run(tier, seed):
     for which in ("same-name-as-variable", "same-name-as-inner-package", "parameter-default-same-name"):
         idx += 1
         jobs.append(("shadow", (idx, which)))
+    idx += 1
+    jobs.append(("dashm", idx))
 
     def dispatch(j):
-        return {"case": case_job, "refused": refused_job, "late": late_accept_job, "order": accept_order_job, "spell": spellings_job, "look": lookalike_job, "self": self_accept_job, "shadow": shadow_local_job}[j[0]](j[1])
+        return {"case": case_job, "refused": refused_job, "late": late_accept_job, "order": accept_order_job, "spell": spellings_job, "look": lookalike_job, "self": self_accept_job, "shadow": shadow_local_job, "dashm": dash_m_job}[j[0]](j[1])
 
     results = core.fork_map(dispatch, jobs, timeout=900)
     for j, r in zip(jobs, results):
@@ -569,7 +615,9 @@ def run(tier, seed):
 def replay(payload):
     rep = core.Report("C14")
     c = payload["case"]
-    if c.get("shadow_local"):
+    if c.get("dash_m"):
+        rep.merge(dash_m_job(c["idx"]))
+    elif c.get("shadow_local"):
         rep.merge(shadow_local_job((c["idx"], c["which"])))
     elif c.get("self_accept"):
         rep.merge(self_accept_job((c["idx"], c["edit"])))
